@@ -289,6 +289,8 @@ TextOpClauses(e, pre, post) ==
   CASE e.op = "case" -> CaseC(e, pre, post)
     [] e.op = "pad" -> PadC(e, pre, post)
     [] e.op = "pad_huge" -> PadHugeC(e, pre, post)
+    [] e.op = "fmt_huge" ->      \* a width beyond the machine index range: the error str itself raises (ValueError)
+         Cl("C09.format_huge_width_like_str", e.a.pyout = "raise:ValueError", e.a.pyout = "raise:ValueError" => e.out = "raise:ValueError")
     [] e.op = "strip" -> StripC(e, pre, post)
     [] e.op = "rmfix" -> RmfixC(e, pre, post)
     [] e.op = "replace" -> ReplaceC(e, pre, post)
